@@ -196,10 +196,23 @@ def setup():
     def CreateSink(self, properties):
       return self.sink
 
+  RealKazoo = ZooKeeperServerSetProvider.__dict__.get('KazooClient')
+
+  class SafeKazoo(RealKazoo):
+    """The real KazooClient (it parses the host list itself) that can never connect."""
+    c20_started = 0
+
+    def start(self, *a, **k):
+      self.c20_started += 1
+
+    def start_async(self, *a, **k):
+      self.c20_started += 1
+
+  _S.update(SafeKazoo=SafeKazoo)
   _S.update(core=core, AsyncResult=AsyncResult, CountingAsyncResult=CountingAsyncResult,
             MessageDispatcher=MessageDispatcher, RecProvider=RecProvider, SinkProperties=SinkProperties,
             Static=StaticServerSetProvider, Zk=ZooKeeperServerSetProvider,
-            RealKazoo=ZooKeeperServerSetProvider.__dict__.get('KazooClient'))
+            RealKazoo=RealKazoo)
 
 
 # ---------------------------------------------------------------------------------------------
@@ -686,8 +699,7 @@ def run_uri(case):
   Zk = _S['Zk']
   uri = case_uri(case)
   fake = not (case['kind'] == 'zk' and case.get('kazoo') == 'real')
-  if fake:
-    Zk.KazooClient = _FakeKazoo
+  Zk.KazooClient = _FakeKazoo if fake else _S['SafeKazoo']
   del _FakeKazoo.created[:]
   try:
     try:
@@ -714,12 +726,11 @@ def run_uri(case):
       else:
         o['khosts'] = [[h, p] for h, p in cl.hosts]
         o['chroot'] = cl.chroot
-        o['started'] = 1 if cl.connected else 0
+        o['started'] = getattr(cl, 'c20_started', 0) + (1 if cl.connected else 0)
       return o
     return {'type': 'unknown:' + type(prov).__name__}
   finally:
-    if fake:
-      Zk.KazooClient = _S['RealKazoo']
+    Zk.KazooClient = _S['RealKazoo']
 
 
 def run_impl(case):
@@ -1049,6 +1060,7 @@ def stats(cases, obs):
   rets = {}
   kinds = {}
   uri_out = {}
+  feats = {}
   n_alias = n_coll = n_multi = n_initalias = n_real = n_public = n_unspec = n_reserved = 0
   for c, o in zip(cases, obs):
     if not isinstance(o, dict) or 'harness_exc' in o:
@@ -1079,10 +1091,21 @@ def stats(cases, obs):
     else:
       key = c['kind'] + ':' + (o.get('type') or o.get('exc') or '?')
       uri_out[key] = uri_out.get(key, 0) + 1
+      u = case_uri(c)
+      for name, hit in (('bracket', '[' in u or ']' in u), ('both_brackets', '[' in u and ']' in u),
+                        ('non_ascii', any(ord(ch) > 127 for ch in u)), ('leading_blank', u[:1] <= ' ' and u != ''),
+                        ('tab_cr_lf', any(ch in u for ch in '\t\r\n')), ('upper_scheme', u[:1].isupper() or u[1:2].isupper()),
+                        ('query', '?' in u), ('fragment', '#' in u), ('underscore_port', bool(re.search(r':[0-9_]*_[0-9_]*(,|$)', u))),
+                        ('signed_port', bool(re.search(r':[ ]*[+-]', u))), ('blank_in_port', bool(re.search(r':[0-9]* [0-9]*(,|$)', u))),
+                        ('no_double_slash', '://' not in u), ('empty_netloc_piece', ',,' in u or u.endswith(',') or '//,' in u),
+                        ('extra_colon', bool(re.search(r':[^,/]*:[^,/]*:', u)))):
+        if hit:
+          feats[name] = feats.get(name, 0) + 1
   return {'lookup_resolutions': res, 'call_outcomes_by_dispatcher_behaviour': rets, 'member_kinds_resolved': kinds,
           'public_methods': n_public, 'alias_members': n_alias, 'aliases_with_unspecified_publicness': n_unspec,
           'init_aliases': n_initalias, 'foo_foo_async_collisions': n_coll, 'reserved_name_methods': n_reserved,
-          'interfaces_with_multiple_inheritance': n_multi, 'interfaces_on_real_dispatcher': n_real, 'uri_outcomes': uri_out}
+          'interfaces_with_multiple_inheritance': n_multi, 'interfaces_on_real_dispatcher': n_real, 'uri_outcomes': uri_out,
+          'uri_features': feats}
 
 
 COQ_HEADER = COQ_HEADER + '\n' + _common_header()
